@@ -1,4 +1,1226 @@
-#[allow(dead_code, unused_imports, unused_variables, unused_mut)]
+// DHCPv4 client harnesses: C18 (and the DHCP part of C13).
+// Spliced into src/socket/dhcpv4.rs: `ClientState`, `RequestState`, `RenewState`, private `Socket` fields and
+// `Socket::parse_ack` are reachable.  Build configuration KD (Ethernet medium).
+//
+// One-step harnesses from an arbitrary client state satisfying INV_dhcp, i.e. what the code maintains:
+//   Renewing: renew_at <= rebind_at, and while not yet rebinding rebind_at <= expires_at
+//   (once rebinding, `dispatch` may push rebind_at beyond expires_at; poll_at/dispatch clamp with expires_at);
+//   Requesting: `retry` counts the REQUESTs successfully handed to the device since the OFFER was accepted
+//   (entered with retry = 0 by `process`, incremented only after `emit` returned Ok) -- no relation to
+//   `request_retries` is needed (`retry >= request_retries` is handled by `dispatch`).
+// Server messages are byte templates written here from RFC 2131 (fixed BOOTP header, magic cookie) and
+// RFC 2132 (option codes), one harness per option layout, every field value symbolic (probe 16b/16d).
+#[allow(dead_code, unused_imports, unused_variables, unused_mut, unused_assignments, unused_macros)]
 mod v_socket_dhcpv4 {
     use super::*;
+    use crate::iface::{Config as IfaceConfig, Interface};
+    use crate::phy::{ChecksumCapabilities, Medium};
+    use crate::verif_common::*;
+    use crate::verif_dev::NullDev;
+    use crate::wire::EthernetAddress;
+
+    const DISC: u8 = 0;
+    const REQ: u8 = 1;
+    const REN: u8 = 2;
+
+    /// 2^32 seconds in microseconds: the largest lease / timeout magnitude considered
+    const MAX_DUR_US: u64 = (1u64 << 32) * 1_000_000;
+
+    // ------------------------------------------------------------------ independent references
+    fn contiguous(m: [u8; 4]) -> bool {
+        let inv = !u32::from_be_bytes(m);
+        inv & inv.wrapping_add(1) == 0
+    }
+    fn prefix_of(m: [u8; 4]) -> u8 {
+        u32::from_be_bytes(m).count_ones() as u8
+    }
+    fn unicast(a: [u8; 4]) -> bool {
+        !(a == [255, 255, 255, 255] || (a[0] & 0xf0) == 0xe0 || a == [0, 0, 0, 0])
+    }
+    /// lease actually granted, in microseconds: server value (default 120 s when absent) capped by the user maximum
+    fn granted_us(lease: Option<u32>, maxl: Option<Duration>) -> u64 {
+        let l = match lease {
+            Some(x) => x as u64 * 1_000_000,
+            None => 120_000_000,
+        };
+        match maxl {
+            Some(m) if m.total_micros() < l => m.total_micros(),
+            _ => l,
+        }
+    }
+    fn us(t: Instant) -> i64 {
+        t.total_micros()
+    }
+
+    // ------------------------------------------------------------------ symbolic values
+    fn any_ip() -> Ipv4Address {
+        Ipv4Address::from_octets(kani::any())
+    }
+    fn any_instant() -> Instant {
+        let t: i64 = kani::any();
+        kani::assume(t >= 0 && t < (1i64 << 52));
+        Instant::from_micros(t)
+    }
+    fn any_dur() -> Duration {
+        let d: u64 = kani::any();
+        kani::assume(d <= MAX_DUR_US);
+        Duration::from_micros(d)
+    }
+    fn any_retry_config(max_retries: u16) -> RetryConfig {
+        let mut rc = RetryConfig::default();
+        rc.discover_timeout = any_dur();
+        rc.initial_request_timeout = any_dur();
+        rc.request_retries = kani::any();
+        kani::assume(rc.request_retries <= max_retries);
+        rc.min_renew_timeout = any_dur();
+        rc.max_renew_timeout = if kani::any() { Duration::MAX } else { any_dur() };
+        rc
+    }
+    fn any_config() -> Config<'static> {
+        let plen: u8 = kani::any();
+        kani::assume(plen <= 32);
+        let mut dns: Vec<Ipv4Address, DHCP_MAX_DNS_SERVER_COUNT> = Vec::new();
+        let n: u8 = kani::any();
+        if n >= 1 {
+            dns.push(any_ip()).ok();
+        }
+        if n >= 2 {
+            dns.push(any_ip()).ok();
+        }
+        if n >= 3 {
+            dns.push(any_ip()).ok();
+        }
+        Config {
+            server: ServerInfo { address: any_ip(), identifier: any_ip() },
+            address: Ipv4Cidr::new(any_ip(), plen),
+            router: if kani::any() { Some(any_ip()) } else { None },
+            dns_servers: dns,
+            packet: None,
+        }
+    }
+
+    /// arbitrary client state (INV_dhcp), arbitrary user settings; `max_retries` bounds `request_retries`
+    fn any_state(s: &mut Socket, max_retries: u16) {
+        s.transaction_id = kani::any();
+        s.config_changed = kani::any();
+        s.ignore_naks = kani::any();
+        s.max_lease_duration = if kani::any() { Some(Duration::from_micros(kani::any())) } else { None };
+        s.retry_config = any_retry_config(max_retries);
+        let k: u8 = kani::any();
+        s.state = match k {
+            0 => ClientState::Discovering(DiscoverState { retry_at: any_instant() }),
+            1 => ClientState::Requesting(RequestState {
+                retry_at: any_instant(),
+                retry: kani::any(),
+                server: ServerInfo { address: any_ip(), identifier: any_ip() },
+                requested_ip: any_ip(),
+            }),
+            _ => {
+                let r = RenewState {
+                    config: any_config(),
+                    renew_at: any_instant(),
+                    rebind_at: any_instant(),
+                    rebinding: kani::any(),
+                    expires_at: any_instant(),
+                };
+                kani::assume(r.renew_at <= r.rebind_at);
+                kani::assume(r.rebinding || r.rebind_at <= r.expires_at);
+                ClientState::Renewing(r)
+            }
+        };
+    }
+
+    /// flat copy of everything `process`/`dispatch`/`poll` may touch
+    #[derive(Clone, Copy, Debug)]
+    struct Snap {
+        phase: u8,
+        retry_at: Instant,
+        retry: u16,
+        server: ServerInfo,
+        requested_ip: Ipv4Address,
+        cfg_server: ServerInfo,
+        cfg_addr: Ipv4Cidr,
+        cfg_router: Option<Ipv4Address>,
+        dns_n: usize,
+        dns: [Ipv4Address; 3],
+        renew_at: Instant,
+        rebind_at: Instant,
+        expires_at: Instant,
+        rebinding: bool,
+        config_changed: bool,
+        tid: u32,
+    }
+
+    fn snap(s: &Socket) -> Snap {
+        let z = Ipv4Address::UNSPECIFIED;
+        let zs = ServerInfo { address: z, identifier: z };
+        let t0 = Instant::from_micros(0);
+        let mut p = Snap {
+            phase: DISC, retry_at: t0, retry: 0, server: zs, requested_ip: z, cfg_server: zs,
+            cfg_addr: Ipv4Cidr::new(z, 0), cfg_router: None, dns_n: 0, dns: [z; 3],
+            renew_at: t0, rebind_at: t0, expires_at: t0, rebinding: false,
+            config_changed: s.config_changed, tid: s.transaction_id,
+        };
+        match &s.state {
+            ClientState::Discovering(d) => {
+                p.retry_at = d.retry_at;
+            }
+            ClientState::Requesting(r) => {
+                p.phase = REQ;
+                p.retry_at = r.retry_at;
+                p.retry = r.retry;
+                p.server = r.server;
+                p.requested_ip = r.requested_ip;
+            }
+            ClientState::Renewing(r) => {
+                p.phase = REN;
+                p.cfg_server = r.config.server;
+                p.cfg_addr = r.config.address;
+                p.cfg_router = r.config.router;
+                p.dns_n = r.config.dns_servers.len();
+                if p.dns_n > 0 {
+                    p.dns[0] = r.config.dns_servers[0];
+                }
+                if p.dns_n > 1 {
+                    p.dns[1] = r.config.dns_servers[1];
+                }
+                if p.dns_n > 2 {
+                    p.dns[2] = r.config.dns_servers[2];
+                }
+                p.renew_at = r.renew_at;
+                p.rebind_at = r.rebind_at;
+                p.expires_at = r.expires_at;
+                p.rebinding = r.rebinding;
+            }
+        }
+        p
+    }
+
+    fn same_config(a: &Snap, b: &Snap) -> bool {
+        a.cfg_server == b.cfg_server
+            && a.cfg_addr == b.cfg_addr
+            && a.cfg_router == b.cfg_router
+            && a.dns_n == b.dns_n
+            && (a.dns_n < 1 || a.dns[0] == b.dns[0])
+            && (a.dns_n < 2 || a.dns[1] == b.dns[1])
+            && (a.dns_n < 3 || a.dns[2] == b.dns[2])
+    }
+    fn same_timers(a: &Snap, b: &Snap) -> bool {
+        a.renew_at == b.renew_at && a.rebind_at == b.rebind_at && a.expires_at == b.expires_at && a.rebinding == b.rebinding
+    }
+    /// protocol state equal (the event flag and the xid are compared separately)
+    fn same_state(a: &Snap, b: &Snap) -> bool {
+        a.phase == b.phase
+            && match a.phase {
+                DISC => a.retry_at == b.retry_at,
+                REQ => a.retry_at == b.retry_at && a.retry == b.retry && a.server == b.server && a.requested_ip == b.requested_ip,
+                _ => same_config(a, b) && same_timers(a, b),
+            }
+    }
+
+    /// INV_dhcp on a post-state
+    fn assert_inv(p: &Snap) {
+        if p.phase == REN {
+            assert!(p.renew_at <= p.rebind_at, "inv:dhcp_renew_at_not_after_rebind_at");
+            assert!(p.rebinding || p.rebind_at <= p.expires_at, "inv:dhcp_rebind_at_not_after_expiry_until_rebinding");
+        }
+    }
+
+    macro_rules! dhcp_env {
+        ($dev:ident, $iface:ident, $cx:ident, $now:ident, $mac:ident, $mtu:expr) => {
+            let mut $dev = NullDev { medium: Medium::Ethernet, mtu: $mtu, checksum: ChecksumCapabilities::ignored() };
+            let $now: i64 = kani::any();
+            kani::assume($now >= 0 && $now < (1i64 << 40));
+            let macb: [u8; 6] = kani::any();
+            kani::assume(macb[0] & 1 == 0);
+            let $mac = EthernetAddress(macb);
+            let mut ifcfg = IfaceConfig::new(HardwareAddress::Ethernet($mac));
+            ifcfg.random_seed = kani::any();
+            let mut $iface = Interface::new(ifcfg, &mut $dev, Instant::from_millis($now));
+            let $cx = $iface.context();
+        };
+    }
+
+    // ------------------------------------------------------------------ 1. lease arithmetic at the parse_ack boundary
+    // @harness props=C18 cfg=KD tier=q to=600 mem=6 unwind=12 opts=nomem covers=4 funcs=dhcpv4::Socket::parse_ack;Ipv4Address::prefix_len;Ipv4Address::x_is_unicast bounds=lease/T1/T2_each_absent_or_any_u32;_any_mask;_any_your_ip;_max_lease_absent_or_any_u64_us;_now_in_[0,2^40_ms);_<=2_DNS_servers
+    #[kani::proof]
+    pub(crate) fn dhcp_parse_ack() {
+        let now: i64 = kani::any();
+        kani::assume(now >= 0 && now < (1i64 << 40));
+        let nowi = Instant::from_millis(now);
+        let lease: Option<u32> = if kani::any() { Some(kani::any()) } else { None };
+        let t1: Option<u32> = if kani::any() { Some(kani::any()) } else { None };
+        let t2: Option<u32> = if kani::any() { Some(kani::any()) } else { None };
+        let yi: [u8; 4] = kani::any();
+        let mask: Option<[u8; 4]> = if kani::any() { Some(kani::any()) } else { None };
+        let d0: [u8; 4] = kani::any();
+        let d1: [u8; 4] = kani::any();
+        let dns = if kani::any() {
+            let mut v: Vec<Ipv4Address, DHCP_MAX_DNS_SERVER_COUNT> = Vec::new();
+            v.push(Ipv4Address::from_octets(d0)).ok();
+            v.push(Ipv4Address::from_octets(d1)).ok();
+            Some(v)
+        } else {
+            None
+        };
+        let router = if kani::any() { Some(any_ip()) } else { None };
+        let msg = DhcpRepr {
+            message_type: DhcpMessageType::Ack,
+            transaction_id: kani::any(),
+            secs: 0,
+            client_hardware_address: EthernetAddress(kani::any()),
+            client_ip: Ipv4Address::UNSPECIFIED,
+            your_ip: Ipv4Address::from_octets(yi),
+            server_ip: Ipv4Address::UNSPECIFIED,
+            router,
+            subnet_mask: mask.map(Ipv4Address::from_octets),
+            relay_agent_ip: Ipv4Address::UNSPECIFIED,
+            broadcast: false,
+            requested_ip: None,
+            client_identifier: None,
+            server_identifier: None,
+            parameter_request_list: None,
+            dns_servers: dns,
+            max_size: None,
+            lease_duration: lease,
+            renew_duration: t1,
+            rebind_duration: t2,
+            additional_options: &[],
+        };
+        let maxl: Option<Duration> = if kani::any() { Some(Duration::from_micros(kani::any())) } else { None };
+        let server = ServerInfo { address: any_ip(), identifier: any_ip() };
+        crate::vdump!("now={} lease={:?} t1={:?} t2={:?} yi={:?} mask={:?} maxl={:?}", now, lease, t1, t2, yi, mask, maxl);
+        let res = Socket::parse_ack(nowi, &msg, maxl, server);
+        crate::vdump!("RESULT {:?}", res);
+        let g = granted_us(lease, maxl);
+        if let Some((cfg, renew_at, rebind_at, expires_at)) = &res {
+            assert!(mask.is_some() && contiguous(mask.unwrap()), "prop:c18_ack_mask_contiguous");
+            assert!(unicast(yi), "prop:c18_ack_address_unicast");
+            assert!(cfg.address.address() == Ipv4Address::from_octets(yi) && cfg.address.prefix_len() == prefix_of(mask.unwrap()), "prop:c18_config_is_ack_address_and_mask");
+            assert!(cfg.server == server && cfg.router == router && cfg.packet.is_none(), "prop:c18_config_fields_from_ack");
+            // only unicast DNS servers, each one from the message
+            let k = any_lt(DHCP_MAX_DNS_SERVER_COUNT);
+            if k < cfg.dns_servers.len() {
+                let a = cfg.dns_servers[k].octets();
+                assert!(unicast(a) && msg.dns_servers.is_some() && (a == d0 || a == d1), "prop:c18_config_dns_from_ack");
+            }
+            assert!(us(*expires_at) == us(nowi) + g as i64, "prop:c18_expiry_is_now_plus_granted_lease");
+            assert!(nowi <= *renew_at && renew_at <= rebind_at && rebind_at <= expires_at, "prop:c18_renew_before_rebind_before_expiry");
+            // T1/T2 from the server are used when they are ordered T1 < T2 < lease (RFC 2131 4.4.5); the documented
+            // defaults 0.5 / 0.875 of the lease otherwise when both are absent
+            if let (Some(a), Some(b)) = (t1, t2) {
+                let (a, b) = (a as u64 * 1_000_000, b as u64 * 1_000_000);
+                if a < b && b < g {
+                    assert!(us(*renew_at) == us(nowi) + a as i64 && us(*rebind_at) == us(nowi) + b as i64, "prop:c18_server_t1_t2_honoured");
+                }
+            }
+            if t1.is_none() && t2.is_none() {
+                assert!(us(*renew_at) == us(nowi) + (g / 2) as i64 && us(*rebind_at) == us(nowi) + (g * 7 / 8) as i64, "prop:c18_default_t1_t2");
+            }
+        } else {
+            // (not demanded by C18, but keeps the harness honest: rejection has one of the three documented causes)
+            assert!(mask.is_none() || !contiguous(mask.unwrap()) || !unicast(yi), "prop:c18_ack_rejected_only_for_documented_cause");
+        }
+        kani::cover!(res.is_some() && lease == Some(0), "zero lease accepted");
+        kani::cover!(res.is_some() && lease == Some(u32::MAX) && t1 == Some(u32::MAX) && maxl.is_none(), "2^32-1 lease with inverted T1");
+        kani::cover!(res.is_some() && t1.is_some() && t2.is_some() && t1 == t2 && t1 != Some(0), "T1 == T2 falls back to defaults");
+        kani::cover!(res.is_none() && mask.is_some() && unicast(yi), "non-contiguous mask rejected");
+    }
+
+    // ------------------------------------------------------------------ 2. server message (byte template) -> process
+    struct Fields {
+        op: u8,
+        htype: u8,
+        hlen: u8,
+        xid: [u8; 4],
+        yi: [u8; 4],
+        si: [u8; 4],
+        ch: [u8; 6],
+        mt: u8,
+        sid: [u8; 4],
+        lease: u32,
+        lease2: u32,
+        mask: [u8; 4],
+        router: [u8; 4],
+        t1: u32,
+        t2: u32,
+        dns0: [u8; 4],
+        dns1: [u8; 4],
+    }
+    fn any_fields() -> Fields {
+        Fields {
+            op: kani::any(), htype: kani::any(), hlen: kani::any(), xid: kani::any(), yi: kani::any(), si: kani::any(),
+            ch: kani::any(), mt: kani::any(), sid: kani::any(), lease: kani::any(), lease2: kani::any(), mask: kani::any(),
+            router: kani::any(), t1: kani::any(), t2: kani::any(), dns0: kani::any(), dns1: kani::any(),
+        }
+    }
+
+    /// what the option area of a layout contains (the oracle for the template)
+    #[derive(Clone, Copy)]
+    struct Present {
+        sid: bool,
+        mask: bool,
+        lease: bool,
+        lease2: bool,
+        router: bool,
+        t12: bool,
+        dns: bool,
+    }
+
+    const L_FULL: u8 = 0;
+    const L_NOSID: u8 = 1;
+    const L_NOMASK: u8 = 2;
+    const L_T1T2: u8 = 3;
+    const L_DNS: u8 = 4;
+    const L_TYPEONLY: u8 = 5;
+    const L_DUPLEASE: u8 = 6;
+    const L_REORDER: u8 = 7;
+    const L_NOLEASE: u8 = 8;
+
+    const MSG_MAX: usize = 320;
+
+    macro_rules! put {
+        ($b:ident, $n:ident, $v:expr) => {
+            $b[$n] = $v;
+            $n += 1;
+        };
+    }
+    macro_rules! opt1 {
+        ($b:ident, $n:ident, $kind:expr, $v:expr) => {
+            put!($b, $n, $kind);
+            put!($b, $n, 1);
+            put!($b, $n, $v);
+        };
+    }
+    macro_rules! opt4 {
+        ($b:ident, $n:ident, $kind:expr, $v:expr) => {
+            let v4: [u8; 4] = $v;
+            put!($b, $n, $kind);
+            put!($b, $n, 4);
+            put!($b, $n, v4[0]);
+            put!($b, $n, v4[1]);
+            put!($b, $n, v4[2]);
+            put!($b, $n, v4[3]);
+        };
+    }
+
+    // RFC 2132 option codes
+    const O_PAD: u8 = 0;
+    const O_MASK: u8 = 1;
+    const O_ROUTER: u8 = 3;
+    const O_DNS: u8 = 6;
+    const O_LEASE: u8 = 51;
+    const O_TYPE: u8 = 53;
+    const O_SID: u8 = 54;
+    const O_T1: u8 = 58;
+    const O_T2: u8 = 59;
+    const O_END: u8 = 255;
+
+    /// RFC 2131 figure 1: op htype hlen hops | xid | secs flags | ciaddr | yiaddr | siaddr | giaddr | chaddr(16)
+    /// | sname(64) | file(128) | magic cookie 99.130.83.99 | options
+    macro_rules! template {
+        ($b:ident, $n:ident, $f:ident, $layout:expr) => {
+            let mut $b = [0u8; MSG_MAX];
+            $b[0] = $f.op;
+            $b[1] = $f.htype;
+            $b[2] = $f.hlen;
+            $b[4] = $f.xid[0];
+            $b[5] = $f.xid[1];
+            $b[6] = $f.xid[2];
+            $b[7] = $f.xid[3];
+            $b[16] = $f.yi[0];
+            $b[17] = $f.yi[1];
+            $b[18] = $f.yi[2];
+            $b[19] = $f.yi[3];
+            $b[20] = $f.si[0];
+            $b[21] = $f.si[1];
+            $b[22] = $f.si[2];
+            $b[23] = $f.si[3];
+            $b[28] = $f.ch[0];
+            $b[29] = $f.ch[1];
+            $b[30] = $f.ch[2];
+            $b[31] = $f.ch[3];
+            $b[32] = $f.ch[4];
+            $b[33] = $f.ch[5];
+            $b[236] = 99;
+            $b[237] = 130;
+            $b[238] = 83;
+            $b[239] = 99;
+            let mut $n: usize = 240;
+            match $layout {
+                L_FULL => {
+                    opt1!($b, $n, O_TYPE, $f.mt);
+                    opt4!($b, $n, O_SID, $f.sid);
+                    opt4!($b, $n, O_LEASE, $f.lease.to_be_bytes());
+                    opt4!($b, $n, O_MASK, $f.mask);
+                    opt4!($b, $n, O_ROUTER, $f.router);
+                }
+                L_NOSID => {
+                    opt1!($b, $n, O_TYPE, $f.mt);
+                    opt4!($b, $n, O_LEASE, $f.lease.to_be_bytes());
+                    opt4!($b, $n, O_MASK, $f.mask);
+                    opt4!($b, $n, O_ROUTER, $f.router);
+                }
+                L_NOMASK => {
+                    opt1!($b, $n, O_TYPE, $f.mt);
+                    opt4!($b, $n, O_SID, $f.sid);
+                    opt4!($b, $n, O_LEASE, $f.lease.to_be_bytes());
+                    opt4!($b, $n, O_ROUTER, $f.router);
+                }
+                L_T1T2 => {
+                    opt1!($b, $n, O_TYPE, $f.mt);
+                    opt4!($b, $n, O_SID, $f.sid);
+                    opt4!($b, $n, O_LEASE, $f.lease.to_be_bytes());
+                    opt4!($b, $n, O_T1, $f.t1.to_be_bytes());
+                    opt4!($b, $n, O_T2, $f.t2.to_be_bytes());
+                    opt4!($b, $n, O_MASK, $f.mask);
+                    opt4!($b, $n, O_ROUTER, $f.router);
+                }
+                L_DNS => {
+                    opt1!($b, $n, O_TYPE, $f.mt);
+                    opt4!($b, $n, O_SID, $f.sid);
+                    opt4!($b, $n, O_LEASE, $f.lease.to_be_bytes());
+                    opt4!($b, $n, O_MASK, $f.mask);
+                    opt4!($b, $n, O_ROUTER, $f.router);
+                    put!($b, $n, O_DNS);
+                    put!($b, $n, 8);
+                    put!($b, $n, $f.dns0[0]);
+                    put!($b, $n, $f.dns0[1]);
+                    put!($b, $n, $f.dns0[2]);
+                    put!($b, $n, $f.dns0[3]);
+                    put!($b, $n, $f.dns1[0]);
+                    put!($b, $n, $f.dns1[1]);
+                    put!($b, $n, $f.dns1[2]);
+                    put!($b, $n, $f.dns1[3]);
+                }
+                L_TYPEONLY => {
+                    opt1!($b, $n, O_TYPE, $f.mt);
+                }
+                L_DUPLEASE => {
+                    opt1!($b, $n, O_TYPE, $f.mt);
+                    opt4!($b, $n, O_SID, $f.sid);
+                    opt4!($b, $n, O_LEASE, $f.lease.to_be_bytes());
+                    opt4!($b, $n, O_MASK, $f.mask);
+                    opt4!($b, $n, O_LEASE, $f.lease2.to_be_bytes());
+                    opt4!($b, $n, O_ROUTER, $f.router);
+                }
+                L_REORDER => {
+                    opt4!($b, $n, O_MASK, $f.mask);
+                    opt4!($b, $n, O_ROUTER, $f.router);
+                    put!($b, $n, O_PAD);
+                    opt4!($b, $n, O_LEASE, $f.lease.to_be_bytes());
+                    opt4!($b, $n, O_SID, $f.sid);
+                    opt1!($b, $n, O_TYPE, $f.mt);
+                }
+                _ => {
+                    opt1!($b, $n, O_TYPE, $f.mt);
+                    opt4!($b, $n, O_SID, $f.sid);
+                    opt4!($b, $n, O_MASK, $f.mask);
+                }
+            }
+            put!($b, $n, O_END);
+        };
+    }
+
+    fn present(layout: u8) -> Present {
+        Present {
+            sid: !matches!(layout, L_NOSID | L_TYPEONLY),
+            mask: !matches!(layout, L_NOMASK | L_TYPEONLY),
+            lease: !matches!(layout, L_TYPEONLY | L_NOLEASE),
+            lease2: layout == L_DUPLEASE,
+            router: !matches!(layout, L_TYPEONLY | L_NOLEASE),
+            t12: layout == L_T1T2,
+            dns: layout == L_DNS,
+        }
+    }
+
+    /// what happened, for the per-layout reachability witnesses
+    struct Outcome {
+        configured: bool,
+        refreshed: bool,
+        offer_taken: bool,
+        nak_reset: bool,
+        ignored_matching_ack: bool,
+        zero_retry: bool,
+        lease_capped: bool,
+        second_lease_used: bool,
+        t12_used: bool,
+    }
+
+    /// One server message against an arbitrary client state.  `assert_sent`: also demand that an ACK configures the
+    /// client in Requesting only after a REQUEST was handed to the device (`retry > 0`); see `finding_dhcp_ack_before_request`.
+    fn process_step(layout: u8, assert_sent: bool) -> Outcome {
+        dhcp_env!(dev, iface, cx, now, mac, 1514);
+        let nowi = Instant::from_millis(now);
+        let mut s = Socket::new();
+        any_state(&mut s, u16::MAX);
+        let pre = snap(&s);
+        let maxl = s.max_lease_duration;
+        let ignore_naks = s.ignore_naks;
+        let f = any_fields();
+        let pr = present(layout);
+        template!(b, n, f, layout);
+        let src = any_ip();
+        let ip_repr = Ipv4Repr { src_addr: src, dst_addr: any_ip(), next_header: IpProtocol::Udp, payload_len: UDP_HEADER_LEN + n, hop_limit: 64 };
+        let udp_repr = UdpRepr { src_port: DHCP_SERVER_PORT, dst_port: DHCP_CLIENT_PORT };
+        crate::vdump!("PRE now_ms={} mac={} xid={:#x} max_lease={:?} ignore_naks={} changed={} {:?}", now, mac, pre.tid, maxl, ignore_naks, pre.config_changed, s.state);
+        crate::vdump!("MSG layout={} op={} htype={} hlen={} xid={:?} yiaddr={:?} chaddr={:?} type={} sid={:?} lease={} lease2={} mask={:?} router={:?} t1={} t2={} dns={:?},{:?} src={}",
+            layout, f.op, f.htype, f.hlen, f.xid, f.yi, f.ch, f.mt, f.sid, f.lease, f.lease2, f.mask, f.router, f.t1, f.t2, f.dns0, f.dns1, src);
+        crate::vdump!("BYTES {:?}", &b[..n]);
+
+        s.process(cx, &ip_repr, &udp_repr, &b[..n]);
+
+        let post = snap(&s);
+        crate::vdump!("POST changed={} xid={:#x} {:?}", post.config_changed, post.tid, s.state);
+
+        // ---- reference reading of the template
+        let well_formed = f.htype == 1 && f.hlen == 6;
+        let reply = f.op == 2;
+        let is_ack = reply && f.mt == 5;
+        let is_offer = reply && f.mt == 2;
+        let is_nak = reply && f.mt == 6;
+        let xid_ok = u32::from_be_bytes(f.xid) == pre.tid;
+        let ch_ok = f.ch == mac.0;
+        let mask_ok = pr.mask && contiguous(f.mask);
+        let yi_ok = unicast(f.yi);
+        let for_us = well_formed && xid_ok && ch_ok && pr.sid;
+        let g1 = granted_us(if pr.lease { Some(f.lease) } else { None }, maxl);
+        let g2 = granted_us(Some(f.lease2), maxl);
+
+        let changed = !same_state(&pre, &post);
+        let mut o = Outcome {
+            configured: false, refreshed: false, offer_taken: false, nak_reset: false, ignored_matching_ack: false,
+            zero_retry: false, lease_capped: false, second_lease_used: false, t12_used: false,
+        };
+
+        assert!(post.tid == pre.tid, "prop:c18_process_keeps_transaction_id");
+        assert!(post.config_changed || !pre.config_changed, "prop:c18_pending_event_never_dropped_by_process");
+
+        match post.phase {
+            REN => {
+                if changed {
+                    // a configuration is installed or its lease refreshed: only by a valid ACK to an outstanding REQUEST
+                    assert!(pre.phase != DISC, "prop:c18_configured_only_with_request_outstanding");
+                    assert!(is_ack, "prop:c18_only_ack_configures");
+                    assert!(well_formed, "prop:c18_only_ethernet_bootreply_configures");
+                    assert!(xid_ok, "prop:c18_ack_xid_is_last_request_xid");
+                    assert!(ch_ok, "prop:c18_ack_for_own_hardware_address");
+                    assert!(pr.sid, "prop:c18_ack_has_server_identifier");
+                    assert!(mask_ok, "prop:c18_ack_mask_contiguous");
+                    assert!(yi_ok, "prop:c18_ack_address_unicast");
+                    if assert_sent && pre.phase == REQ {
+                        assert!(pre.retry > 0, "prop:c18_ack_only_after_request_sent");
+                    }
+                    let e = us(post.expires_at) - us(nowi);
+                    assert!(e == g1 as i64 || (pr.lease2 && e == g2 as i64), "prop:c18_expiry_is_now_plus_granted_lease");
+                    assert!(nowi <= post.renew_at && post.renew_at <= post.rebind_at && post.rebind_at <= post.expires_at, "prop:c18_renew_before_rebind_before_expiry");
+                    assert!(!post.rebinding, "prop:c18_fresh_lease_is_not_rebinding");
+                    assert!(post.cfg_addr.address() == Ipv4Address::from_octets(f.yi) && post.cfg_addr.prefix_len() == prefix_of(f.mask), "prop:c18_config_is_ack_address_and_mask");
+                    let want_server = if pre.phase == REQ { pre.server } else { pre.cfg_server };
+                    assert!(post.cfg_server == want_server, "prop:c18_config_server_is_the_requested_one");
+                    assert!(post.cfg_router == if pr.router { Some(Ipv4Address::from_octets(f.router)) } else { None }, "prop:c18_config_fields_from_ack");
+                    assert!(post.dns_n <= if pr.dns { 2 } else { 0 }, "prop:c18_config_dns_from_ack");
+                    if pre.phase == REQ || !same_config(&pre, &post) {
+                        assert!(post.config_changed, "prop:c18_new_configuration_reported");
+                    }
+                    o.configured = pre.phase == REQ;
+                    o.refreshed = pre.phase == REN;
+                    o.zero_retry = pre.phase == REQ && pre.retry == 0;
+                    o.lease_capped = maxl.is_some() && e < f.lease as i64 * 1_000_000;
+                    o.second_lease_used = pr.lease2 && e == g2 as i64 && g1 != g2;
+                    o.t12_used = pr.t12 && us(post.renew_at) - us(nowi) == f.t1 as i64 * 1_000_000 && f.t1 > 0 && f.t1 as u64 * 1_000_000 != g1 / 2;
+                }
+                // the most recent valid ACK defines the lease: a bound client must take it
+                if pre.phase == REN && is_ack && for_us && mask_ok && yi_ok {
+                    let e = us(post.expires_at) - us(nowi);
+                    assert!(e == g1 as i64 || (pr.lease2 && e == g2 as i64), "prop:c18_latest_valid_ack_defines_lease");
+                    assert!(!post.rebinding && post.renew_at <= post.rebind_at && post.rebind_at <= post.expires_at, "prop:c18_latest_valid_ack_defines_lease");
+                }
+                if pre.phase == REN && !(is_ack && for_us) {
+                    o.ignored_matching_ack = !changed && f.mt == 5 && xid_ok && ch_ok;
+                }
+            }
+            REQ => {
+                if pre.phase == DISC {
+                    assert!(is_offer, "prop:c18_only_offer_starts_request");
+                    assert!(well_formed && xid_ok && ch_ok, "prop:c18_offer_matches_xid_and_hardware_address");
+                    assert!(pr.sid, "prop:c18_offer_has_server_identifier");
+                    assert!(yi_ok, "prop:c18_offer_address_unicast");
+                    assert!(post.server.identifier == Ipv4Address::from_octets(f.sid) && post.server.address == src, "prop:c18_request_goes_to_offering_server");
+                    assert!(post.requested_ip == Ipv4Address::from_octets(f.yi), "prop:c18_request_is_for_offered_address");
+                    assert!(post.retry == 0 && post.retry_at == nowi, "prop:c18_request_due_immediately");
+                    o.offer_taken = true;
+                } else {
+                    assert!(pre.phase == REQ && !changed, "prop:c18_message_leaves_requesting_state_untouched");
+                    o.ignored_matching_ack = f.mt == 5 && xid_ok && ch_ok && well_formed && reply;
+                }
+            }
+            _ => {
+                if pre.phase == DISC {
+                    assert!(!changed, "prop:c18_message_leaves_discovering_state_untouched");
+                } else {
+                    assert!(is_nak && !ignore_naks, "prop:c18_reset_only_by_nak_unless_ignored");
+                    assert!(for_us, "prop:c18_nak_matches_xid_and_hardware_address");
+                    if pre.phase == REN {
+                        assert!(post.config_changed, "prop:c18_nak_loss_of_configuration_reported");
+                    }
+                    o.nak_reset = true;
+                }
+            }
+        }
+        // the event flag is raised only by one of the three changes above
+        if post.config_changed && !pre.config_changed {
+            assert!((post.phase == REN && changed) || (pre.phase == REN && post.phase == DISC), "prop:c18_event_only_on_configuration_change");
+        }
+        assert_inv(&post);
+        o
+    }
+
+    // @harness props=C18 cfg=KD tier=q to=1200 mem=8 unwind=12 opts=nomem,fs320 covers=5 funcs=dhcpv4::Socket::process;dhcpv4::Socket::parse_ack;wire::dhcpv4::Repr::parse;wire::dhcpv4::Packet::options bounds=layout_{type,server-id,lease,mask,router};_every_field_value_symbolic_(op,htype,hlen,xid,yiaddr,siaddr,chaddr,type,all_option_values);_any_client_state_with_INV_dhcp;_any_MAC;_no_receive_packet_buffer
+    #[kani::proof]
+    pub(crate) fn dhcp_process_full() {
+        let o = process_step(L_FULL, false);
+        kani::cover!(o.configured, "ACK accepted in Requesting");
+        kani::cover!(o.refreshed, "ACK refreshed the lease in Renewing");
+        kani::cover!(o.offer_taken, "OFFER accepted in Discovering");
+        kani::cover!(o.nak_reset, "NAK reset the client");
+        kani::cover!(o.configured && o.lease_capped, "lease capped by max_lease_duration");
+    }
+
+    // @harness props=C18 cfg=KD tier=q to=1200 mem=8 unwind=12 opts=nomem,fs320 covers=2 funcs=dhcpv4::Socket::process;wire::dhcpv4::Repr::parse bounds=layout_{type,lease,mask,router}_(no_server_identifier);_every_field_value_symbolic;_any_client_state_with_INV_dhcp
+    #[kani::proof]
+    pub(crate) fn dhcp_process_nosid() {
+        let o = process_step(L_NOSID, false);
+        assert!(!o.configured && !o.refreshed && !o.offer_taken && !o.nak_reset, "prop:c18_ack_has_server_identifier");
+        kani::cover!(o.ignored_matching_ack, "matching ACK without server identifier ignored");
+        kani::cover!(!o.ignored_matching_ack, "other message ignored");
+    }
+
+    // @harness props=C18 cfg=KD tier=q to=1200 mem=8 unwind=12 opts=nomem,fs320 covers=3 funcs=dhcpv4::Socket::process;dhcpv4::Socket::parse_ack;wire::dhcpv4::Repr::parse bounds=layout_{type,server-id,lease,router}_(no_subnet_mask);_every_field_value_symbolic;_any_client_state_with_INV_dhcp
+    #[kani::proof]
+    pub(crate) fn dhcp_process_nomask() {
+        let o = process_step(L_NOMASK, false);
+        assert!(!o.configured && !o.refreshed, "prop:c18_ack_mask_contiguous");
+        kani::cover!(o.ignored_matching_ack, "matching ACK without subnet mask ignored");
+        kani::cover!(o.offer_taken, "OFFER accepted in Discovering");
+        kani::cover!(o.nak_reset, "NAK reset the client");
+    }
+
+    // @harness props=C18 cfg=KD tier=q to=1200 mem=8 unwind=12 opts=nomem,fs320 covers=3 funcs=dhcpv4::Socket::process;dhcpv4::Socket::parse_ack;wire::dhcpv4::Repr::parse bounds=layout_{type,server-id,lease,T1,T2,mask,router};_every_field_value_symbolic_(T1/T2/lease_any_u32);_any_client_state_with_INV_dhcp
+    #[kani::proof]
+    pub(crate) fn dhcp_process_t1t2() {
+        let o = process_step(L_T1T2, false);
+        kani::cover!(o.configured, "ACK accepted in Requesting");
+        kani::cover!(o.refreshed, "ACK refreshed the lease in Renewing");
+        kani::cover!(o.configured && o.t12_used, "server T1 used");
+    }
+
+    // @harness props=C18 cfg=KD tier=q to=1200 mem=8 unwind=12 opts=nomem,fs320 covers=2 funcs=dhcpv4::Socket::process;dhcpv4::Socket::parse_ack;wire::dhcpv4::Repr::parse bounds=layout_{type,server-id,lease,mask,router,2_DNS_servers};_every_field_value_symbolic;_any_client_state_with_INV_dhcp
+    #[kani::proof]
+    pub(crate) fn dhcp_process_dns() {
+        let o = process_step(L_DNS, false);
+        kani::cover!(o.configured, "ACK accepted in Requesting");
+        kani::cover!(o.refreshed, "ACK refreshed the lease in Renewing");
+    }
+
+    // @harness props=C18 cfg=KD tier=q to=1200 mem=8 unwind=12 opts=nomem,fs320 covers=2 funcs=dhcpv4::Socket::process;wire::dhcpv4::Repr::parse bounds=layout_{type}_only;_every_field_value_symbolic;_any_client_state_with_INV_dhcp
+    #[kani::proof]
+    pub(crate) fn dhcp_process_typeonly() {
+        let o = process_step(L_TYPEONLY, false);
+        assert!(!o.configured && !o.refreshed && !o.offer_taken && !o.nak_reset, "prop:c18_ack_has_server_identifier");
+        kani::cover!(o.ignored_matching_ack, "matching bare ACK ignored");
+        kani::cover!(!o.ignored_matching_ack, "other message ignored");
+    }
+
+    // @harness props=C18 cfg=KD tier=q to=1200 mem=8 unwind=12 opts=nomem,fs320 covers=3 funcs=dhcpv4::Socket::process;dhcpv4::Socket::parse_ack;wire::dhcpv4::Repr::parse bounds=layout_{type,server-id,lease,mask,lease,router}_(lease_option_twice);_every_field_value_symbolic;_any_client_state_with_INV_dhcp
+    #[kani::proof]
+    pub(crate) fn dhcp_process_duplease() {
+        let o = process_step(L_DUPLEASE, false);
+        kani::cover!(o.configured, "ACK accepted in Requesting");
+        kani::cover!(o.refreshed, "ACK refreshed the lease in Renewing");
+        kani::cover!(o.second_lease_used, "second lease option decided the expiry");
+    }
+
+    // @harness props=C18 cfg=KD tier=q to=1200 mem=8 unwind=12 opts=nomem,fs320 covers=4 funcs=dhcpv4::Socket::process;dhcpv4::Socket::parse_ack;wire::dhcpv4::Repr::parse bounds=layout_{mask,router,pad,lease,server-id,type}_(type_last);_every_field_value_symbolic;_any_client_state_with_INV_dhcp
+    #[kani::proof]
+    pub(crate) fn dhcp_process_reorder() {
+        let o = process_step(L_REORDER, false);
+        kani::cover!(o.configured, "ACK accepted in Requesting");
+        kani::cover!(o.refreshed, "ACK refreshed the lease in Renewing");
+        kani::cover!(o.offer_taken, "OFFER accepted in Discovering");
+        kani::cover!(o.nak_reset, "NAK reset the client");
+    }
+
+    // @harness props=C18 cfg=KD tier=q to=1200 mem=8 unwind=12 opts=nomem,fs320 covers=2 funcs=dhcpv4::Socket::process;dhcpv4::Socket::parse_ack;wire::dhcpv4::Repr::parse bounds=layout_{type,server-id,mask}_(no_lease_option:_120_s_default);_every_field_value_symbolic;_any_client_state_with_INV_dhcp
+    #[kani::proof]
+    pub(crate) fn dhcp_process_nolease() {
+        let o = process_step(L_NOLEASE, false);
+        kani::cover!(o.configured, "ACK without lease option accepted in Requesting");
+        kani::cover!(o.refreshed, "ACK without lease option refreshed the lease");
+    }
+
+    // DESIGN hypothesis 13.  `process` enters Requesting with retry = 0 (OFFER accepted) and the first REQUEST is
+    // emitted by the next `dispatch`; `retry` is incremented only after `emit` returned Ok.  So retry == 0 <=> no
+    // REQUEST has reached the device.  An ACK carrying the DISCOVER's xid is accepted in that window (RFC 2131
+    // figure 5: DHCPACK is discarded in SELECTING), i.e. a configuration is reported although no request was sent.
+    // @harness props=C18 cfg=KD tier=q kind=finding to=1200 mem=8 unwind=12 opts=nomem,fs320 covers=1 funcs=dhcpv4::Socket::process bounds=layout_{type,server-id,lease,mask,router};_every_field_value_symbolic;_any_client_state_with_INV_dhcp
+    #[kani::proof]
+    pub(crate) fn finding_dhcp_ack_before_request() {
+        let o = process_step(L_FULL, true);
+        kani::cover!(o.configured && o.zero_retry, "ACK accepted in Requesting before any REQUEST was sent");
+    }
+
+    // ------------------------------------------------------------------ 3. dispatch
+    #[derive(Clone, Copy)]
+    struct Emitted {
+        seen: bool,
+        mt: DhcpMessageType,
+        xid: u32,
+        ch: EthernetAddress,
+        cid: Option<EthernetAddress>,
+        src: Ipv4Address,
+        dst: Ipv4Address,
+        ciaddr: Ipv4Address,
+        yiaddr: Ipv4Address,
+        req_ip: Option<Ipv4Address>,
+        sid: Option<Ipv4Address>,
+        sport: u16,
+        dport: u16,
+        len_ok: bool,
+        proto_ok: bool,
+    }
+    fn no_emission() -> Emitted {
+        let z = Ipv4Address::UNSPECIFIED;
+        Emitted {
+            seen: false, mt: DhcpMessageType::Unknown(0), xid: 0, ch: EthernetAddress([0; 6]), cid: None, src: z, dst: z, ciaddr: z,
+            yiaddr: z, req_ip: None, sid: None, sport: 0, dport: 0, len_ok: false, proto_ok: false,
+        }
+    }
+    fn record(e: &mut Emitted, ip: &Ipv4Repr, udp: &UdpRepr, d: &DhcpRepr) {
+        e.seen = true;
+        e.mt = d.message_type;
+        e.xid = d.transaction_id;
+        e.ch = d.client_hardware_address;
+        e.cid = d.client_identifier;
+        e.src = ip.src_addr;
+        e.dst = ip.dst_addr;
+        e.ciaddr = d.client_ip;
+        e.yiaddr = d.your_ip;
+        e.req_ip = d.requested_ip;
+        e.sid = d.server_identifier;
+        e.sport = udp.src_port;
+        e.dport = udp.dst_port;
+        e.len_ok = ip.payload_len == UDP_HEADER_LEN + d.buffer_len();
+        e.proto_ok = ip.next_header == IpProtocol::Udp;
+    }
+
+    /// obligations on any emitted message and on the state after one `dispatch` at `nowi`
+    fn check_dispatch(pre: &Snap, post: &Snap, e: &Emitted, emit_ok: bool, res_ok: bool, nowi: Instant, mac: EthernetAddress, rc: &RetryConfig) {
+        assert!(res_ok == (emit_ok || !e.seen), "prop:c09_emit_error_passed_through");
+        let z = Ipv4Address::UNSPECIFIED;
+        if e.seen {
+            assert!(e.ch == mac && e.cid == Some(mac), "prop:c18_message_carries_own_hardware_address");
+            assert!(e.sport == DHCP_CLIENT_PORT && e.dport == DHCP_SERVER_PORT && e.len_ok && e.proto_ok, "prop:c10_dhcp_message_ports_and_length");
+            assert!(e.yiaddr == z, "prop:c18_client_message_has_no_yiaddr");
+            if emit_ok {
+                assert!(e.xid == post.tid, "prop:c18_message_carries_socket_transaction_id");
+            } else {
+                // the device refused the message: nothing is remembered, except that the rebinding phase was entered
+                assert!(post.tid == pre.tid && post.config_changed == pre.config_changed, "prop:c18_failed_emit_leaves_state");
+                let mut want = *pre;
+                if pre.phase == REN {
+                    want.rebinding = pre.rebinding || nowi >= pre.rebind_at;
+                }
+                assert!(same_state(&want, post), "prop:c18_failed_emit_leaves_state");
+            }
+        } else {
+            assert!(post.tid == pre.tid, "prop:c18_xid_changes_only_with_a_message");
+        }
+        match pre.phase {
+            DISC => {
+                assert!(e.seen == (nowi >= pre.retry_at), "prop:c18_discover_sent_exactly_when_due");
+                if e.seen {
+                    assert!(e.mt == DhcpMessageType::Discover && e.src == z && e.dst == Ipv4Address::BROADCAST && e.ciaddr == z, "prop:c18_discover_is_broadcast_from_unspecified");
+                    assert!(e.req_ip.is_none() && e.sid.is_none(), "prop:c18_discover_is_broadcast_from_unspecified");
+                }
+                if e.seen && emit_ok {
+                    assert!(post.phase == DISC, "prop:c18_dispatch_discovering_stays");
+                    let gap = us(post.retry_at) - us(nowi);
+                    assert!(gap >= 0 && gap as u64 == rc.discover_timeout.total_micros(), "prop:c18_bounded_solicit_interval");
+                } else if !e.seen {
+                    assert!(same_state(pre, post) && post.config_changed == pre.config_changed, "prop:c13_no_state_change_before_poll_at");
+                }
+            }
+            REQ => {
+                let due = nowi >= pre.retry_at;
+                let exhausted = pre.retry >= rc.request_retries;
+                assert!(e.seen == (due && !exhausted), "prop:c18_request_sent_exactly_when_due");
+                if e.seen {
+                    assert!(e.mt == DhcpMessageType::Request && e.src == z && e.dst == Ipv4Address::BROADCAST && e.ciaddr == z, "prop:c18_request_is_broadcast_from_unspecified");
+                    assert!(e.req_ip == Some(pre.requested_ip) && e.sid == Some(pre.server.identifier), "prop:c18_request_names_offered_address_and_server");
+                    assert!(e.xid == pre.tid, "prop:c18_request_keeps_discover_xid");
+                }
+                if e.seen && emit_ok {
+                    assert!(post.phase == REQ && post.retry == pre.retry + 1 && post.server == pre.server && post.requested_ip == pre.requested_ip, "prop:c18_request_counted");
+                    let gap = us(post.retry_at) - us(nowi);
+                    let backoff = (rc.initial_request_timeout.total_micros() as u128) << (pre.retry as u32 / 2);
+                    let bound = core::cmp::max(rc.discover_timeout.total_micros() as u128, backoff);
+                    assert!(gap >= 0 && gap as u128 <= bound, "prop:c18_bounded_solicit_interval");
+                } else if due && exhausted {
+                    // give up on this server and start over: the next DISCOVER is due immediately
+                    assert!(post.phase == DISC && post.retry_at <= nowi, "prop:c18_rediscover_after_request_retries");
+                    assert!(post.config_changed == pre.config_changed, "prop:c18_event_only_on_configuration_change");
+                } else if !e.seen {
+                    assert!(same_state(pre, post) && post.config_changed == pre.config_changed, "prop:c13_no_state_change_before_poll_at");
+                }
+            }
+            _ => {
+                let expired = nowi >= pre.expires_at;
+                if expired {
+                    assert!(!e.seen, "prop:c18_no_renewal_with_expired_lease");
+                    assert!(post.phase == DISC && post.config_changed, "prop:c18_deconfigured_at_expiry");
+                    assert!(post.retry_at <= nowi, "prop:c18_rediscover_immediately_after_expiry");
+                } else {
+                    let rebinding = pre.rebinding || nowi >= pre.rebind_at;
+                    let due = if pre.rebinding { nowi >= pre.rebind_at } else { nowi >= pre.renew_at };
+                    assert!(e.seen == due, "prop:c18_renewal_attempted_exactly_when_due");
+                    assert!(post.phase == REN && post.expires_at == pre.expires_at && same_config(pre, post), "prop:c18_dispatch_never_extends_lease");
+                    if e.seen {
+                        assert!(e.mt == DhcpMessageType::Request, "prop:c18_renewal_is_a_request");
+                        assert!(e.src == pre.cfg_addr.address() && e.ciaddr == pre.cfg_addr.address(), "prop:c18_renewal_from_leased_address");
+                        assert!(e.req_ip.is_none() && e.sid.is_none(), "prop:c18_renewal_has_no_requested_ip_or_server_id");
+                        // renew (unicast to the leasing server) before T2, rebind (broadcast) from T2 on, neither after expiry
+                        if rebinding {
+                            assert!(e.dst == Ipv4Address::BROADCAST, "prop:c18_rebind_is_broadcast_from_t2");
+                        } else {
+                            assert!(e.dst == pre.cfg_server.address && nowi < pre.rebind_at, "prop:c18_renew_is_unicast_before_t2");
+                        }
+                    }
+                    if e.seen && emit_ok {
+                        assert!(post.rebinding == rebinding, "prop:c18_rebinding_entered_at_t2");
+                        let next = if rebinding { post.rebind_at } else { post.renew_at };
+                        assert!(next >= nowi, "prop:c18_renewal_retry_not_in_the_past");
+                        if !rebinding {
+                            assert!(post.rebind_at == pre.rebind_at && post.renew_at <= pre.rebind_at, "prop:c18_renew_retries_stay_before_t2");
+                        }
+                        assert!(post.config_changed == pre.config_changed, "prop:c18_event_only_on_configuration_change");
+                    } else if !e.seen {
+                        assert!(same_state(pre, post) && post.config_changed == pre.config_changed, "prop:c13_no_state_change_before_poll_at");
+                    }
+                }
+            }
+        }
+        assert_inv(post);
+    }
+
+    // @harness props=C18 cfg=KD tier=q to=900 mem=6 unwind=12 opts=nomem covers=6 funcs=dhcpv4::Socket::dispatch;dhcpv4::Socket::reset;dhcpv4::Socket::poll bounds=any_client_state_with_INV_dhcp;_any_now;_emit_Ok_or_Err;_timeouts<=2^32_s_(max_renew_timeout_also_Duration::MAX);_request_retries<=16;_any_MAC,_MTU_82..1514,_any_random_seed
+    #[kani::proof]
+    pub(crate) fn dhcp_dispatch_step() {
+        let mtu = any_le(1514);
+        kani::assume(mtu >= 82);
+        dhcp_env!(dev, iface, cx, now, mac, mtu);
+        let nowi = Instant::from_millis(now);
+        let mut s = Socket::new();
+        any_state(&mut s, 16);
+        let rc = s.retry_config;
+        let pre = snap(&s);
+        crate::vdump!("PRE now_ms={} mac={} xid={:#x} changed={} {:?} {:?}", now, mac, pre.tid, pre.config_changed, rc, s.state);
+        let mut e = no_emission();
+        let emit_ok: bool = kani::any();
+        let res = s.dispatch(cx, |_cx, (ip, udp, d)| {
+            record(&mut e, &ip, &udp, &d);
+            if emit_ok { Ok(()) } else { Err(()) }
+        });
+        let post = snap(&s);
+        crate::vdump!("EMIT seen={} ok={} type={:?} xid={:#x} src={} dst={} ciaddr={} req_ip={:?} sid={:?}", e.seen, emit_ok, e.mt, e.xid, e.src, e.dst, e.ciaddr, e.req_ip, e.sid);
+        crate::vdump!("POST xid={:#x} changed={} {:?}", post.tid, post.config_changed, s.state);
+        check_dispatch(&pre, &post, &e, emit_ok, res.is_ok(), nowi, mac, &rc);
+        // the first poll() at or after expiry reports the loss
+        if pre.phase == REN && nowi >= pre.expires_at {
+            let ev = s.poll();
+            assert!(ev == Some(Event::Deconfigured), "prop:c18_deconfigured_at_expiry");
+        }
+        kani::cover!(pre.phase == REN && nowi >= pre.expires_at, "lease expired");
+        kani::cover!(pre.phase == REN && e.seen && emit_ok && e.dst != Ipv4Address::BROADCAST, "renewal unicast to the server");
+        kani::cover!(pre.phase == REN && e.seen && emit_ok && !pre.rebinding && post.rebinding, "rebinding entered");
+        kani::cover!(pre.phase == REQ && e.seen && emit_ok && pre.retry == 15, "REQUEST retransmitted with backoff");
+        kani::cover!(pre.phase == REQ && post.phase == DISC, "request retries exhausted");
+        kani::cover!(pre.phase == DISC && e.seen && !emit_ok, "DISCOVER refused by the device");
+    }
+
+    // `initial_request_timeout << (retry / 2)` (Duration::shl = u64 <<): a legal RetryConfig with request_retries > 128
+    // reaches a shift amount of 64 => arithmetic-overflow panic (debug builds) / wrapped shift amount (release builds).
+    // @harness props=C18 cfg=KD tier=q kind=finding to=600 mem=6 unwind=12 opts=nomem covers=1 funcs=dhcpv4::Socket::dispatch;time::Duration::shl bounds=Requesting_state;_request_retries_any_u16;_timeouts<=2^32_s
+    #[kani::proof]
+    pub(crate) fn finding_dhcp_request_backoff_shift() {
+        dhcp_env!(dev, iface, cx, now, mac, 1514);
+        let nowi = Instant::from_millis(now);
+        let mut s = Socket::new();
+        any_state(&mut s, u16::MAX);
+        kani::assume(matches!(s.state, ClientState::Requesting(_)));
+        let rc = s.retry_config;
+        let pre = snap(&s);
+        crate::vdump!("PRE now_ms={} {:?} {:?}", now, rc, s.state);
+        let mut seen = false;
+        let res = s.dispatch(cx, |_cx, (_ip, _udp, _d)| -> Result<(), ()> {
+            seen = true;
+            Ok(())
+        });
+        let post = snap(&s);
+        crate::vdump!("POST {:?}", s.state);
+        if seen {
+            assert!(post.phase == REQ && post.retry == pre.retry + 1, "prop:c18_request_counted");
+        }
+        kani::cover!(seen && pre.retry >= 128, "REQUEST number 129 or later sent");
+    }
+
+    // ------------------------------------------------------------------ 4. poll_at contract
+    // @harness props=C18,C13 cfg=KD tier=q to=900 mem=6 unwind=12 opts=nomem covers=4 funcs=dhcpv4::Socket::poll_at;dhcpv4::Socket::dispatch bounds=any_client_state_with_INV_dhcp;_any_now;_emit_Ok_or_Err;_timeouts<=2^32_s;_request_retries<=16
+    #[kani::proof]
+    pub(crate) fn dhcp_poll_at_step() {
+        dhcp_env!(dev, iface, cx, now, mac, 1514);
+        let nowi = Instant::from_millis(now);
+        let mut s = Socket::new();
+        any_state(&mut s, 16);
+        let pre = snap(&s);
+        let d = match s.poll_at(cx) {
+            PollAt::Time(t) => t,
+            _ => {
+                assert!(false, "prop:c18_dhcp_client_always_has_a_deadline");
+                Instant::from_micros(0)
+            }
+        };
+        if pre.phase == REN {
+            assert!(d <= pre.expires_at, "prop:c18_poll_at_not_after_expiry");
+            // earliest of the renew/rebind retry instant and the expiry
+            let retry = if pre.rebinding { pre.rebind_at } else { pre.renew_at };
+            assert!(d == core::cmp::min(retry, pre.expires_at), "prop:c18_poll_at_is_next_renewal_or_expiry");
+        } else {
+            assert!(d == pre.retry_at, "prop:c18_poll_at_is_next_solicitation");
+        }
+        let early = nowi < d;
+        crate::vdump!("PRE now_ms={} poll_at={} {:?}", now, d, s.state);
+        let mut seen = false;
+        let emit_ok: bool = kani::any();
+        let _ = s.dispatch(cx, |_cx, (_ip, _udp, _d)| {
+            seen = true;
+            if emit_ok { Ok(()) } else { Err(()) }
+        });
+        let post = snap(&s);
+        crate::vdump!("POST seen={} {:?}", seen, s.state);
+        let unchanged = same_state(&pre, &post) && post.tid == pre.tid && post.config_changed == pre.config_changed;
+        if early {
+            assert!(!seen, "prop:c13_nothing_sent_before_poll_at");
+            assert!(unchanged, "prop:c13_no_state_change_before_poll_at");
+        } else {
+            // at or after the deadline something observable happens
+            assert!(seen || !unchanged, "prop:c18_deadline_leads_to_message_or_state_change");
+        }
+        if !seen && unchanged {
+            match s.poll_at(cx) {
+                PollAt::Time(t) => assert!(t > nowi, "prop:c13_idle_poll_leaves_future_deadline"),
+                _ => assert!(false, "prop:c18_dhcp_client_always_has_a_deadline"),
+            }
+        }
+        if post.phase == REN {
+            match s.poll_at(cx) {
+                PollAt::Time(t) => assert!(t <= post.expires_at, "prop:c18_poll_at_not_after_expiry"),
+                _ => assert!(false, "prop:c18_dhcp_client_always_has_a_deadline"),
+            }
+        }
+        kani::cover!(early && pre.phase == REN && d == pre.expires_at && d < pre.rebind_at, "deadline is the expiry while rebinding");
+        kani::cover!(early && pre.phase == REQ, "polled before the REQUEST retry is due");
+        kani::cover!(!early && seen && pre.phase == REN, "renewal deadline reached");
+        kani::cover!(!early && !seen && pre.phase == REN, "expiry deadline reached");
+    }
+
+    // ------------------------------------------------------------------ 5. poll(): events
+    // @harness props=C18 cfg=KD tier=q to=600 mem=6 unwind=12 opts=nomem covers=3 funcs=dhcpv4::Socket::poll bounds=any_client_state_with_INV_dhcp;_<=3_DNS_servers;_no_receive_packet_buffer
+    #[kani::proof]
+    pub(crate) fn dhcp_poll_event() {
+        let mut s = Socket::new();
+        any_state(&mut s, u16::MAX);
+        let pre = snap(&s);
+        crate::vdump!("PRE changed={} {:?}", pre.config_changed, s.state);
+        let mut kind = 0u8;
+        {
+            let ev = s.poll();
+            crate::vdump!("EVENT {:?}", ev);
+            match &ev {
+                None => {}
+                Some(Event::Deconfigured) => kind = 1,
+                Some(Event::Configured(c)) => {
+                    kind = 2;
+                    assert!(pre.phase == REN, "prop:c18_configured_only_while_bound");
+                    assert!(c.server == pre.cfg_server && c.address == pre.cfg_addr && c.router == pre.cfg_router && c.packet.is_none(), "prop:c18_event_reports_the_bound_configuration");
+                    assert!(c.dns_servers.len() == pre.dns_n, "prop:c18_event_reports_the_bound_configuration");
+                    let k = any_lt(DHCP_MAX_DNS_SERVER_COUNT);
+                    if k < pre.dns_n {
+                        assert!(c.dns_servers[k] == pre.dns[k], "prop:c18_event_reports_the_bound_configuration");
+                    }
+                }
+            }
+        }
+        assert!((kind != 0) == pre.config_changed, "prop:c18_event_exactly_when_flagged");
+        if kind == 2 {
+            assert!(pre.phase == REN && pre.config_changed, "prop:c18_configured_only_while_bound");
+        }
+        if kind == 1 {
+            assert!(pre.phase != REN && pre.config_changed, "prop:c18_deconfigured_only_while_unbound");
+        }
+        let post = snap(&s);
+        assert!(!post.config_changed, "prop:c18_event_consumed");
+        assert!(same_state(&pre, &post) && post.tid == pre.tid, "prop:c18_poll_keeps_protocol_state");
+        assert!(s.poll().is_none(), "prop:c18_event_consumed");
+        kani::cover!(kind == 2 && pre.dns_n == 3, "Configured with 3 DNS servers");
+        kani::cover!(kind == 1 && pre.phase == REQ, "Deconfigured while requesting");
+        kani::cover!(kind == 0 && pre.phase == REN, "no event while bound");
+    }
+
+    // ------------------------------------------------------------------ 6. history from Socket::new() (thorough tier)
+    /// discover-dispatch -> OFFER -> [request-dispatch] -> ACK -> later dispatch, symbolic fields and time advances.
+    /// Ghost: which client messages reached the device.
+    fn history(with_request_dispatch: bool) -> (bool, bool, bool) {
+        let mut dev = NullDev { medium: Medium::Ethernet, mtu: 1514, checksum: ChecksumCapabilities::ignored() };
+        let t0: i64 = kani::any();
+        kani::assume(t0 >= 0 && t0 < (1i64 << 40));
+        let macb: [u8; 6] = kani::any();
+        kani::assume(macb[0] & 1 == 0);
+        let mac = EthernetAddress(macb);
+        let mut ifcfg = IfaceConfig::new(HardwareAddress::Ethernet(mac));
+        ifcfg.random_seed = kani::any();
+        let mut iface = Interface::new(ifcfg, &mut dev, Instant::from_millis(t0));
+        let mut s = Socket::new();
+        let maxl: Option<Duration> = if kani::any() { Some(Duration::from_micros(kani::any())) } else { None };
+        s.set_max_lease_duration(maxl);
+        s.set_ignore_naks(kani::any());
+        assert!(s.poll() == Some(Event::Deconfigured), "prop:c18_new_client_reports_unconfigured");
+        let udp_repr = UdpRepr { src_port: DHCP_SERVER_PORT, dst_port: DHCP_CLIENT_PORT };
+
+        // step 1: DISCOVER
+        let mut e1 = no_emission();
+        let _ = s.dispatch(iface.context(), |_cx, (ip, udp, d)| -> Result<(), ()> {
+            record(&mut e1, &ip, &udp, &d);
+            Ok(())
+        });
+        assert!(e1.seen && e1.mt == DhcpMessageType::Discover && e1.dst == Ipv4Address::BROADCAST, "prop:c18_new_client_solicits_immediately");
+        crate::vdump!("T0={} DISCOVER xid={:#x} {:?}", t0, e1.xid, s.state);
+
+        // step 2: a server message (OFFER layout, every value symbolic) at t1 >= t0
+        let t1: i64 = kani::any();
+        kani::assume(t1 >= t0 && t1 < (1i64 << 40));
+        iface.poll_maintenance(Instant::from_millis(t1));
+        let f1 = any_fields();
+        template!(b1, n1, f1, L_FULL);
+        let src1 = any_ip();
+        let ip1 = Ipv4Repr { src_addr: src1, dst_addr: Ipv4Address::BROADCAST, next_header: IpProtocol::Udp, payload_len: UDP_HEADER_LEN + n1, hop_limit: 64 };
+        s.process(iface.context(), &ip1, &udp_repr, &b1[..n1]);
+        crate::vdump!("T1={} MSG1 type={} xid={:?} ch={:?} yi={:?} sid={:?} -> {:?}", t1, f1.mt, f1.xid, f1.ch, f1.yi, f1.sid, s.state);
+        assert!(s.poll().is_none(), "prop:c18_configured_only_with_request_outstanding");
+
+        // step 3: REQUEST
+        let t2: i64 = kani::any();
+        kani::assume(t2 >= t1 && t2 < (1i64 << 40));
+        let mut e2 = no_emission();
+        if with_request_dispatch {
+            iface.poll_maintenance(Instant::from_millis(t2));
+            let _ = s.dispatch(iface.context(), |_cx, (ip, udp, d)| -> Result<(), ()> {
+                record(&mut e2, &ip, &udp, &d);
+                Ok(())
+            });
+            crate::vdump!("T2={} CLIENT seen={} type={:?} xid={:#x} req_ip={:?} sid={:?} -> {:?}", t2, e2.seen, e2.mt, e2.xid, e2.req_ip, e2.sid, s.state);
+        }
+        let request_sent = e2.seen && e2.mt == DhcpMessageType::Request;
+
+        // step 4: a second server message (ACK layout, every value symbolic) at t3 >= t2
+        let t3: i64 = kani::any();
+        kani::assume(t3 >= t2 && t3 < (1i64 << 40));
+        iface.poll_maintenance(Instant::from_millis(t3));
+        let f2 = any_fields();
+        template!(b2, n2, f2, L_FULL);
+        let ip2 = Ipv4Repr { src_addr: any_ip(), dst_addr: Ipv4Address::BROADCAST, next_header: IpProtocol::Udp, payload_len: UDP_HEADER_LEN + n2, hop_limit: 64 };
+        s.process(iface.context(), &ip2, &udp_repr, &b2[..n2]);
+        crate::vdump!("T3={} MSG2 type={} xid={:?} ch={:?} yi={:?} sid={:?} lease={} mask={:?} -> {:?}", t3, f2.mt, f2.xid, f2.ch, f2.yi, f2.sid, f2.lease, f2.mask, s.state);
+        let g = granted_us(Some(f2.lease), maxl);
+        let mut configured = false;
+        {
+            let ev = s.poll();
+            crate::vdump!("EVENT {:?}", ev);
+            if let Some(Event::Configured(c)) = &ev {
+                configured = true;
+                assert!(request_sent, "prop:c18_ack_only_after_request_sent");
+                assert!(f2.op == 2 && f2.mt == 5, "prop:c18_only_ack_configures");
+                assert!(u32::from_be_bytes(f2.xid) == e2.xid || !request_sent, "prop:c18_ack_xid_is_last_request_xid");
+                assert!(f2.ch == macb, "prop:c18_ack_for_own_hardware_address");
+                assert!(contiguous(f2.mask), "prop:c18_ack_mask_contiguous");
+                assert!(unicast(f2.yi), "prop:c18_ack_address_unicast");
+                assert!(c.address.address() == Ipv4Address::from_octets(f2.yi) && c.address.prefix_len() == prefix_of(f2.mask), "prop:c18_config_is_ack_address_and_mask");
+                // the request named the offered address and the offering server
+                assert!(!request_sent || (e2.req_ip == Some(Ipv4Address::from_octets(f1.yi)) && e2.sid == Some(Ipv4Address::from_octets(f1.sid))), "prop:c18_request_names_offered_address_and_server");
+            } else {
+                assert!(ev.is_none(), "prop:c18_event_only_on_configuration_change");
+            }
+        }
+        if configured {
+            match s.poll_at(iface.context()) {
+                PollAt::Time(t) => assert!(us(t) <= t3 * 1000 + g as i64, "prop:c18_poll_at_not_after_expiry"),
+                _ => assert!(false, "prop:c18_dhcp_client_always_has_a_deadline"),
+            }
+        }
+
+        // step 5: time passes; no further ACK arrives
+        let t4: i64 = kani::any();
+        kani::assume(t4 >= t3 && t4 < (1i64 << 41));
+        iface.poll_maintenance(Instant::from_millis(t4));
+        let mut e3 = no_emission();
+        let _ = s.dispatch(iface.context(), |_cx, (ip, udp, d)| -> Result<(), ()> {
+            record(&mut e3, &ip, &udp, &d);
+            Ok(())
+        });
+        crate::vdump!("T4={} CLIENT seen={} type={:?} dst={} -> {:?}", t4, e3.seen, e3.mt, e3.dst, s.state);
+        let expired = configured && t4 * 1000 >= t3 * 1000 + g as i64;
+        {
+            let ev = s.poll();
+            if expired {
+                assert!(ev == Some(Event::Deconfigured), "prop:c18_deconfigured_at_expiry");
+                assert!(!e3.seen, "prop:c18_no_renewal_with_expired_lease");
+            } else {
+                assert!(ev.is_none(), "prop:c18_event_only_on_configuration_change");
+            }
+        }
+        if configured && !expired && e3.seen {
+            assert!(e3.mt == DhcpMessageType::Request && e3.src == Ipv4Address::from_octets(f2.yi), "prop:c18_renewal_from_leased_address");
+        }
+        (configured, expired, configured && !expired && e3.seen && e3.dst == Ipv4Address::BROADCAST)
+    }
+
+    // @harness props=C18 cfg=KD tier=t to=3000 mem=12 unwind=12 opts=nomem,fs320 covers=3 funcs=dhcpv4::Socket::new;dhcpv4::Socket::dispatch;dhcpv4::Socket::process;dhcpv4::Socket::poll;dhcpv4::Socket::poll_at;Interface::poll_maintenance bounds=history_new();dispatch;server_message;dispatch;server_message;dispatch_with_4_symbolic_time_advances;_both_messages_layout_{type,server-id,lease,mask,router}_all_values_symbolic;_default_retry_config;_emit_always_Ok
+    #[kani::proof]
+    pub(crate) fn dhcp_history() {
+        let (configured, expired, rebinding) = history(true);
+        kani::cover!(configured && !expired, "configured and still within the lease");
+        kani::cover!(configured && expired, "configured, then the lease expired");
+        kani::cover!(rebinding, "rebinding broadcast after T2");
+    }
+
+    // the replayable history behind `finding_dhcp_ack_before_request`: DISCOVER, OFFER, ACK without any REQUEST
+    // @harness props=C18 cfg=KD tier=t kind=finding to=3000 mem=12 unwind=12 opts=nomem,fs320 covers=1 funcs=dhcpv4::Socket::new;dhcpv4::Socket::dispatch;dhcpv4::Socket::process;dhcpv4::Socket::poll bounds=history_new();dispatch;server_message;server_message;dispatch;_both_messages_layout_{type,server-id,lease,mask,router}_all_values_symbolic;_default_retry_config
+    #[kani::proof]
+    pub(crate) fn finding_dhcp_history_ack_without_request() {
+        let (configured, _expired, _rebinding) = history(false);
+        kani::cover!(configured, "configured without a REQUEST");
+    }
+
+    // ------------------------------------------------------------------ must-fail twin
+    // @harness props=C18 kind=mustfail cfg=KD tier=q to=600 mem=6 unwind=12 opts=nomem
+    #[kani::proof]
+    pub(crate) fn dhcp_must_fail() {
+        dhcp_env!(dev, iface, cx, now, mac, 1514);
+        let mut s = Socket::new();
+        any_state(&mut s, 16);
+        let pre = snap(&s);
+        let _ = s.dispatch(cx, |_cx, (_ip, _udp, _d)| -> Result<(), ()> { Ok(()) });
+        let post = snap(&s);
+        assert!(post.phase == pre.phase, "prop:deliberately_false_dispatch_never_changes_phase");
+    }
 }
